@@ -197,6 +197,35 @@ def freeze(a):
 # ---------------------------------------------------------------------------
 # anchor reach (sys.monitoring, PY_START on named code objects)
 
+class _Absent:
+    """Stands for an attribute the tree under test does not have (a refactor may remove a private helper)."""
+    def __init__(self, path):
+        self.path = path
+
+    def __getattr__(self, name):
+        return _Absent(self.path + '.' + name)
+
+
+class Lenient:
+    """Attribute proxy used while a monitor lists its anchors: a missing attribute yields an _Absent marker instead of
+    raising, so that a tree in which a private helper was renamed or removed is still decided by the oracles (the anchor
+    is reported as absent, not as 'never reached')."""
+    def __init__(self, obj, path='lentil'):
+        object.__setattr__(self, '_obj', obj)
+        object.__setattr__(self, '_path', path)
+
+    def __getattr__(self, name):
+        obj = object.__getattribute__(self, '_obj')
+        path = object.__getattribute__(self, '_path') + '.' + name
+        try:
+            v = getattr(obj, name)
+        except AttributeError:
+            return _Absent(path)
+        if isinstance(v, type) or type(v).__name__ == 'module':
+            return Lenient(v, path)
+        return v
+
+
 class Anchors:
     TOOL = 3
 
@@ -206,6 +235,13 @@ class Anchors:
         self.active = False
 
     def add(self, label, func):
+        if isinstance(func, _Absent):
+            self.ctx.notes.setdefault('anchors_absent', [])
+            if label not in self.ctx.notes['anchors_absent']:
+                self.ctx.notes['anchors_absent'].append(label)
+            return
+        if isinstance(func, Lenient):
+            func = object.__getattribute__(func, '_obj')
         f = func
         while hasattr(f, '__wrapped_original__'):
             f = f.__wrapped_original__
